@@ -28,10 +28,11 @@ type Sink struct {
 	WriteAfterC int
 	Closed      chan struct{}
 	// fault injection (C18)
-	FailAt    int64 // the write that would cross this byte offset fails (-1: never)
-	FailClose bool  // Close returns an error
-	Short     bool  // the failing write is a short write (n < len, err = io.ErrShortWrite)
-	Refused   int   // number of refusals reported to the writer
+	FailAt    int64  // the write that would cross this byte offset fails (-1: never)
+	FailClose bool   // Close returns an error
+	Short     bool   // the failing write is a short write (n < len, err = io.ErrShortWrite)
+	Refused   int    // number of refusals reported to the writer
+	OnRefuse  func() // called at the first refusal
 	accepted  int64
 }
 
@@ -49,6 +50,9 @@ func (s *Sink) Write(p []byte) (int, error) {
 	s.Writes++
 	if s.FailAt >= 0 && s.accepted+int64(len(p)) > s.FailAt {
 		s.Refused++
+		if s.Refused == 1 && s.OnRefuse != nil {
+			s.OnRefuse()
+		}
 		if s.Short {
 			n := int(s.FailAt - s.accepted)
 			if n < 0 {
@@ -75,6 +79,9 @@ func (s *Sink) Close() error {
 	}
 	if s.FailClose {
 		s.Refused++
+		if s.Refused == 1 && s.OnRefuse != nil {
+			s.OnRefuse()
+		}
 		return ErrInjected
 	}
 	return nil
